@@ -27,7 +27,21 @@ claim("C04", "cut-set analysis on the CFG of (*PKCS7).Verify and its helpers wit
       "Decides that the three PKCS#7 verification entry points accept only behind issuer+serial identity with the caller's certificate, a valid RSA-SHA256 CheckSignature by that certificate over the attributes encoder's output, "
       "and the messageDigest/content binding (or a detached blob), all applied to the same signer entry. DER strictness and equality of re-encoded and signed attribute bytes (C16) are not decided.", "DESIGN.md §4 C04")
 
+claim("C07", "reader/writer codec tables extracted from the encoding/binary idioms (type-resolved, flattened to wire positions) and compared; affine size equations; every-iteration loop checks",
+      "Decides necessary conditions of the round trip: the list and entry reader/writer pairs agree on fields, order, widths and byte order and equal the EFI_SIGNATURE_LIST/DATA layouts; nothing a sub-decoder consumed is dropped; "
+      "the writer-only SignatureHeader is empty for every accepted list; every list/entry is written; ListSize moves by exactly ±Size with one entry; entry sizes stay uniform; decoded data does not alias the input buffer. "
+      "Byte-for-byte equality for all streams is not decided.", "DESIGN.md §4 C07")
+claim("C08", "input-taint with affine guard entailment for the size arithmetic; cut-sets for the type/size gates and the clean-end exit; EOF-provenance dataflow over error values",
+      "Decides: ListSize-28, Size-16 and the remaining-size decrement cannot wrap; allocations are bounded; a list is accepted only for a handled type (SHA-256 only with size 48); the database decoder succeeds only at a clean end; "
+      "an error still matching io.EOF leaves the list decoder only when nothing of the list was consumed; declared lengths are read with full-read primitives. Exact agreement with a reference decoder's split is not decided.", "DESIGN.md §4 C08")
+claim("C09", "cut-sets for guard-before-mutation, reachability of failing returns from mutations, SSA value identity (checked == stored), affine pairing of size updates",
+      "Decides the check-then-act shape of Append/Remove: mutations only behind the not-duplicate / found / known-type / 32-byte / uniform-size edges; no failing return after a mutation; the value checked is the value stored and the list "
+      "is selected by the stored length; removal keeps order, continues the search after a miss, drops an emptied list; ListSize changes by ±Size with one entry. Histories against an abstract model are not explored.", "DESIGN.md §4 C09")
+claim("C10", "reader/writer codec tables flattened through sub-codecs and compared with each other and with the UEFI layouts; affine length check; double-emission and alias-consumption rules; taint/terminator rules in the readers",
+      "Decides: the three reader/writer pairs agree position by position and equal WIN_CERTIFICATE / EFI_TIME+WIN_CERTIFICATE; the body is dwLength-8 bytes and the GUID variant only re-parses consumed bytes (so exactly 16+dwLength are consumed); "
+      "the body is emitted once; length arithmetic is guarded; no terminator on input; full-read primitives. Byte-exact round trips for all values are not decided.", "DESIGN.md §4 C10")
+
 NA["C16"] = ("acceptance of third-party signatures depends on the bytes other tools emit at run time (attribute order/encoding "
              "chosen by OpenSSL/sbsign); the source holds no representation of them, so no structural condition beyond C04/C13 exists to check statically")
-for _i in ["C01","C03","C05","C06","C07","C08","C09","C10","C17","C18","C19"]:
+for _i in ["C01","C03","C05","C06","C17","C18","C19"]:
     NA.setdefault(_i, "rule set for this property not built yet in this round (see DESIGN.md Appendix C); no static verdict is claimed")
